@@ -16,6 +16,7 @@ from __future__ import annotations
 
 import copy
 import re
+from html.entities import name2codepoint
 
 from chameleon.exc import LanguageError
 from chameleon.namespaces import XMLNS_NS
@@ -55,9 +56,13 @@ WHITELIST = frozenset([
 def split_parts(arg):
     # Break in pieces at undoubled semicolons and
     # change double semicolons to singles.  A semicolon that terminates
-    # a character entity is not a separator.  The pieces are cut out of
-    # the argument itself so that they keep their source position.
-    protected = {m.end() - 1 for m in ENTITY_RE.finditer(arg)}
+    # a character entity is not a separator (``&b;`` in ``?a=1&b;`` is
+    # not an entity).  The pieces are cut out of the argument itself so
+    # that they keep their source position.
+    protected = {
+        m.end() - 1 for m in ENTITY_RE.finditer(arg)
+        if m.group(2) or m.group(3) + m.group(4) in name2codepoint
+    }
 
     parts = []
     start = 0
